@@ -397,7 +397,7 @@ def assoc(inst, **changes):
             msg = f"{k} is not an attrs attribute on {new.__class__}."
             raise AttrsAttributeNotFoundError(msg)
         _OBJ_SETATTR(new, k, v)
-    if changes and getattr(new, _HASH_CACHE_FIELD, None) is not None:
+    if getattr(new, _HASH_CACHE_FIELD, None) is not None:
         # The shallow copy carried over a hash code that was cached for the
         # old field values.
         _OBJ_SETATTR(new, _HASH_CACHE_FIELD, None)
